@@ -3,6 +3,7 @@ package rules
 import (
 	"fmt"
 	"go/token"
+	"go/types"
 	"strings"
 
 	"golang.org/x/tools/go/ssa"
@@ -18,10 +19,10 @@ func init() {
 				"(mode) in every live Run every state mutator and every write to the reward pool lies inside the region guarded by the ok-edge of context.(*state.State); " +
 				"(atomic) once the first mutator of a Run has executed no rejecting return is reachable, so a Run either rejects with the state untouched or returns OK; " +
 				"(nonce) every path through the deliver region to the OK return calls Accounts.SetNonce(tx.Sender(), tx.Nonce) exactly on the signer and nonce of this tx, and nothing else in transaction code writes nonces; " +
-				"(failfee) the failure branch of RunTx performs only the whitelisted fee effects on the payer (sender, or check issuer for RedeemCheck), capped by the payer's balance, and never touches the nonce; nothing in RunTx before decodedData.Run mutates state; (postrun) after the dispatched Run has returned RunTx never answers with another, rejecting response, so an applied transaction is never reported as rejected (found and repaired: non-positive ticker price). " +
+				"(failfee) the failure branch of RunTx performs only the whitelisted fee effects on the payer (sender, or check issuer for RedeemCheck), capped by the payer's balance, and never touches the nonce; nothing in RunTx before decodedData.Run mutates state; (simcopy) the simulated pool the validation phase builds to price a trade after the fee swap holds clones of the live limit orders, never the live objects (it updates them in place); (postrun) after the dispatched Run has returned RunTx never answers with another, rejecting response, so an applied transaction is never reported as rejected (found and repaired: non-positive ticker price). " +
 				"NOT decided: that each mutator does what its name says, arithmetic of the fee, a panic half-way through a deliver block (C07).",
 			Assumptions: stdAssumptions,
-			Rules:       []string{"C03.mode", "C03.atomic", "C03.nonce", "C03.noncewriters", "C03.failfee", "C03.prerun", "C03.postrun", "C03.alias"},
+			Rules:       []string{"C03.mode", "C03.atomic", "C03.nonce", "C03.noncewriters", "C03.failfee", "C03.prerun", "C03.postrun", "C03.alias", "C03.simcopy"},
 		},
 		Run: runC03,
 	})
@@ -56,6 +57,61 @@ func runC03(c *core.Ctx) {
 	if fn := c.RunTx(); fn != nil {
 		checkPostRun(c, "C03.postrun", fn)
 	}
+	checkSimulationCopies(c, "C03.simcopy")
+}
+
+// checkSimulationCopies: the validation phase of the trading handlers "applies" the fee swap to a
+// simulated copy of the pool (PairV2.AddLastSwapStep / AddLastSwapStepWithOrders) so that the
+// trade is priced after the fee. The simulation updates the orders it holds in place
+// (updateOrders subtracts the filled amounts). It runs against the live deliver-state pair, also
+// for transactions that are later rejected, so every *Limit the simulated pair holds must be a
+// clone: an order object shared with the live pair would be eroded by validation alone.
+func checkSimulationCopies(c *core.Ctx, rule string) {
+	n := 0
+	for _, fn := range c.SrcFuncs(core.PkgState + "/swap") {
+		if fn.Parent() != nil || !strings.HasPrefix(fn.Name(), "AddLastSwapStep") || fn.Signature.Recv() == nil {
+			continue
+		}
+		if !strings.HasSuffix(fn.Signature.Recv().Type().String(), "swap.PairV2") {
+			continue // the V1 module is not wired into the live state (C07.inventory wiring rule)
+		}
+		for _, b := range fn.Blocks {
+			for _, in := range b.Instrs {
+				mu, ok := in.(*ssa.MapUpdate)
+				if !ok {
+					continue
+				}
+				mt, ok := mu.Map.Type().Underlying().(*types.Map)
+				if !ok || !strings.HasSuffix(mt.Elem().String(), "swap.Limit") {
+					continue
+				}
+				n++
+				good := true
+				var what []string
+				for _, o := range core.Origins(mu.Value) {
+					switch x := o.(type) {
+					case *ssa.Const:
+						if x.Value != nil {
+							good = false
+						}
+						what = append(what, "nil")
+					case *ssa.Call:
+						name := core.CalleeName(&x.Call)
+						what = append(what, name)
+						if !strings.HasSuffix(name, "swap.Limit).clone") {
+							good = false
+						}
+					default:
+						good = false
+						what = append(what, describe(o))
+					}
+				}
+				c.Check(good && len(what) > 0, rule, core.ShortFn(fn)+"/orders", mu.Pos(), "orders placed in the simulated pair are clones: "+strings.Join(what, ", "),
+					"the simulated pair built during validation shares a limit-order object with the live pair ("+strings.Join(what, ", ")+"): updateOrders on the simulation subtracts the simulated fill from the real resting order, also when the transaction is then rejected")
+			}
+		}
+	}
+	c.Floor(rule, n, 1, "order-map fills in AddLastSwapStep* of the live pool module")
 }
 
 // C03.mode: every mutator is inside a deliver region.
